@@ -6,6 +6,8 @@
 #include "aln_struct.h"
 #define ALN_SEQPROFILE_IMPORT
 #include "aln_seqprofile.h"
+
+#include "kalign_verif.h"
 #define MAX(a, b) (a > b ? a : b)
 #define MAX3(a,b,c) MAX(MAX(a,b),c)
 
@@ -112,6 +114,7 @@ int aln_seqprofile_foward(struct aln_mem* m)
                 }
         }
         //prof1 -= m->enda << 6;
+        KV_HOOK(if(m->kv_par) kv_hfwd(m));
         return OK;
 }
 
@@ -213,11 +216,13 @@ int aln_seqprofile_backward(struct aln_mem* m)
                         s[j].gb = MAX(s[j].gb,ca)+prof1[29];
                 }
         }
+        KV_HOOK(if(m->kv_par) kv_hbwd(m));
         return OK;
 }
 
 int aln_seqprofile_meetup(struct aln_mem* m,int old_cor[],int* meet,int* t,float* score)
 {
+        KV_HOOK(if(m->kv_par) kv_hmeet(m, old_cor));
         struct states* f = m->f;
         struct states* b = m->b;
         const float* prof1 = m->prof1;
